@@ -296,7 +296,9 @@ open Run
 abbrev Oracle := Site → EvalResult
 
 /-- `evaluate(expression, inputs, location)` for a present expression: raised ⇒ PermFail with
-    the location; a value with an error object anywhere inside ⇒ PermFail; otherwise the value -/
+    the location; a value with an error object anywhere inside ⇒ PermFail; otherwise the value.
+    (Repaired code, fixes/F10: rendering the failing sub-expression for the message goes through
+    `_dump_tree`, which cannot raise, so the `except` arms always reach their `return PermFail`.) -/
 def site (eval : Oracle) (s : Site) : Run ETree :=
   match eval s with
   | .raised => ⟨[(s, .raised)], [], .error (.permFail s .evalError)⟩
